@@ -913,8 +913,9 @@ def _play(init, ops, reads, check=True):
                 # the history goes on after a failure: a kind that was still fine (e.g. the XML structure after a
                 # stale-cache read failure) may break at a later step; it is blamed on the first failing operation
                 for k, v in bad.items():
-                    first[3].setdefault(k, f"(history continued after the failure at step {first[0]}) step {i} {name}: {v}")
-            if first is not None and all(k in first[3] for k in ("grid", "fresh", "xml")):
+                    if k in first[4]:       # only the kinds that are claimed for the first failing operation
+                        first[3].setdefault(k, f"(history continued after the failure at step {first[0]}) step {i} {name}: {v}")
+            if first is not None and all(k in first[3] for k in first[4]):
                 return t, g, done, first
     return t, g, done, first
 
